@@ -58,7 +58,8 @@ type verifC07lT struct {
 	query   bool // lwork == -1
 	fs, fs0 [][]float64
 	is, is0 [][]int
-	ldp     []*int
+	ldp     []*int // leading dimensions
+	stp     []*int // increments, lwork: they steer loops and block sizes
 	mats    []verifC07lMat
 	fill    func() // optional routine-specific layout, run after the default one
 }
@@ -153,7 +154,7 @@ func (t *verifC07lT) need(c bool) { t.flags = verifAnd(t.flags, c) }
 func (t *verifC07lT) inc(name string) *int {
 	p := new(int)
 	*p = verifInt(name, -2, 2)
-	t.ldp = append(t.ldp, p)
+	t.stp = append(t.stp, p)
 	return p
 }
 
@@ -345,7 +346,7 @@ func (t *verifC07lT) work2(minLo, minHi, hi int) ([]float64, *int) {
 	t.always = verifOr(t.always, len(v) < need)
 	p := new(int)
 	*p = lwork
-	t.ldp = append(t.ldp, p)
+	t.stp = append(t.stp, p)
 	return v, p
 }
 
@@ -356,6 +357,18 @@ func (t *verifC07lT) run(call func()) {
 	accept := verifAnd(verifAnd(t.flags, verifNot(t.gap)), verifAnd(t.lds, t.store))
 	reject := verifOr(verifNot(t.flags),
 		verifAnd(verifNot(t.query), verifOr(verifNot(t.lds), verifOr(t.always, verifAnd(t.nonemp, t.short)))))
+	// The increments and lwork steer loop bounds and block sizes: they are case split for every
+	// tuple, so that a prologue that wrongly lets a rejected tuple through is reported as a violation
+	// instead of an unbounded exploration.
+	for _, p := range t.stp {
+		*p = verifConcrete(*p)
+	}
+	if reject && verifParam("lrejconc", 0) == 1 {
+		// the same for the leading dimensions (thorough tier: about three times the paths)
+		for _, p := range t.ldp {
+			*p = verifConcrete(*p)
+		}
+	}
 	if !reject {
 		// accept class or undocumented: the call may run the numeric part; case split what steers it
 		for _, p := range t.ldp {
